@@ -6,6 +6,8 @@ package main
 // C14 (deleted topic stays deleted), C13 (every request answered).
 
 import (
+	"sort"
+	"github.com/tinode/chat/server/push"
 	"fmt"
 	"strings"
 	"testing"
@@ -159,13 +161,13 @@ func vfP2PExec(alphabet []vfP2POp) func(hist []int, last bool) vfXResult {
 				cl.mark = len(cl.frames)
 				cl.seen = len(cl.frames)
 			}
-			vfPush.drain()
+			pushes, _ := vfPush.drain()
 			if op.Kind == "pub" && code == 202 {
 				npub++
 			}
 			post := t.snap()
 			if isLast {
-				res.Violations = append(res.Violations, vfP2POracles(t, pre, op, code, frames, post)...)
+				res.Violations = append(res.Violations, vfP2POracles(t, pre, op, code, frames, post, pushes)...)
 				res.Outcome = fmt.Sprintf("%s:%d", op.Kind, code/100)
 				res.Obs = fmt.Sprintf("%d %s", code, vfFramesCanon(frames))
 			}
@@ -184,7 +186,7 @@ func (t *vfTW) p2pUnload() {
 	vfAdvance(idleMasterTopicTimeout + 2000000000)
 }
 
-func vfP2POracles(t *vfTW, pre *vfTopicSnap, op vfP2POp, code int, frames map[string][]*vfFrame, post *vfTopicSnap) []vfXViolation {
+func vfP2POracles(t *vfTW, pre *vfTopicSnap, op vfP2POp, code int, frames map[string][]*vfFrame, post *vfTopicSnap, pushes []*push.Receipt) []vfXViolation {
 	var out []vfXViolation
 	kind := op.Kind
 	if op.Kind == "note" {
@@ -290,6 +292,25 @@ func vfP2POracles(t *vfTW, pre *vfTopicSnap, op vfP2POp, code int, frames map[st
 				}
 			}
 		} else {
+			// push notifications: exactly the current subscribers with R and P, never a removed user
+			var wantTo, gotTo []string
+			for _, u := range vfSortedKeys(pre.Subs) {
+				if ue, ok := vfEff(pre, u); ok && ue.IsReader() && ue.IsPresencer() {
+					wantTo = append(wantTo, u)
+				}
+			}
+			for _, p := range pushes {
+				if p.Payload.What != push.ActMsg {
+					continue
+				}
+				for uid := range p.To {
+					gotTo = append(gotTo, t.uname(uid))
+				}
+			}
+			sort.Strings(gotTo)
+			if strings.Join(gotTo, ",") != strings.Join(wantTo, ",") {
+				bad("C02:push-recipients:p2p", fmt.Sprintf("%s: push addressed to %v, expected %v (stored subscriptions %v)", op, gotTo, wantTo, pre.Subs))
+			}
 			// each participant sees the topic under the other's id
 			for i := 0; i < 2; i++ {
 				for _, f := range frames[fmt.Sprintf("s%d", i)] {
